@@ -944,7 +944,14 @@ pub fn run_once(cfg: &ConcCfg, shard: &mut Shard, keep_sample: bool) -> RunOutco
                 sink: cfg.sink && cfg.fut,
                 drop_at_end: matches!(cfg.family, Family::LastSender | Family::Teardown | Family::NoReceiver),
                 max_retries: cfg.max_retries,
-                churn_every: if cfg.family == Family::HandleChurn { 3 + (rng.below(4) as u32) } else { 0 },
+                churn_every: if cfg.family == Family::HandleChurn {
+                    3 + (rng.below(4) as u32)
+                } else if cfg.family == Family::NoReceiver && cfg.seed % 4 < 2 {
+                    // reclamation cycles keep starting and completing while the last receivers leave
+                    1 + (rng.below(2) as u32)
+                } else {
+                    0
+                },
             }),
         ));
     }
